@@ -42,6 +42,7 @@ EXPLANATION = ("Theorems: load(dump v) = v for every well-formed value (mutual s
                "value is TypeError; every successful load yields a dumpable value (decoder closed and total).")
 
 LIMIT = sys.get_int_max_str_digits()
+_TEN_LIMIT = 10 ** LIMIT if LIMIT else 0
 
 
 def brine():
@@ -238,7 +239,7 @@ def depth_of(v):
 def has_overlimit_int(v):
     t = type(v)
     if t is int:
-        return bool(LIMIT) and abs(v) >= 10 ** LIMIT
+        return bool(LIMIT) and abs(v) >= _TEN_LIMIT
     if t in (tuple, frozenset):
         return any(has_overlimit_int(x) for x in v)
     if t is slice:
